@@ -284,6 +284,7 @@ func (h *handler) serve(clientCtx context.Context) error {
 		if md, ok := si.methods[method]; ok {
 			select {
 			case h.unaryRpcChan <- unaryRpcArgs{si, md, rpc}:
+				verifhook.Emit("srv.unary.dispatch", rpc.GetId(), "")
 			case <-h.ctx.Done():
 				return h.ctx.Err()
 			}
